@@ -3,6 +3,8 @@ package main
 import (
 	"errors"
 	"fmt"
+	"github.com/bluenviron/gomavlib/v3/pkg/dialects/minimal"
+	"net"
 	"runtime"
 	"strings"
 	"sync"
@@ -281,6 +283,165 @@ func genC10(o *hx.Out, tier string) {
 		if len(col.Channels()) == 0 {
 			o.Add("close-race", "-"+hung, "chanevp", "minimal", "-", hx.Hex(datas[0]), "-")
 		}
+	}
+	// ---- many channels decode the SAME message type at the same time (v2 payloads cut short by
+	// trailing zeros): every channel's events must be its own frames, in order ----
+	nx := 3
+	if tier == "thorough" {
+		nx = 40
+	}
+	for sc := 0; sc < nx; sc++ {
+		runtime.GOMAXPROCS(16)
+		k := 4
+		pipes := make([]*scn.Pipe, k)
+		for i := range pipes {
+			pipes[i] = scn.NewPipe(fmt.Sprintf("x%d", i))
+		}
+		node := newNode(pipes, func(c *gomavlib.NodeConf) { c.Dialect = d })
+		col := scn.NewCollector(node, 0, false)
+		chs, ok := openChannels(col, pipes)
+		if !ok {
+			node.Close()
+			continue
+		}
+		n := 300
+		streams := make([][]byte, k)
+		for c := 0; c < k; c++ {
+			for i := 0; i < n; i++ {
+				// CustomMode = channel*100000 + index; the other fields zero: the v2 payload is 1..4 bytes
+				m := &minimal.MessageHeartbeat{CustomMode: uint32(c*100000 + i + 1)}
+				mrw := drw.GetMessage(0)
+				f := &frame.V2Frame{SequenceNumber: byte(i), SystemID: byte(c + 1), ComponentID: 1, Message: mrw.Write(m, true)}
+				f.Checksum = f.GenerateChecksum(mrw.CRCExtra())
+				streams[c] = append(streams[c], frameBytes(drw, f)...)
+			}
+		}
+		var wg sync.WaitGroup
+		for c := 0; c < k; c++ {
+			wg.Add(1)
+			go func(c int) {
+				defer wg.Done()
+				b := streams[c]
+				for len(b) > 0 {
+					q := 600
+					if q > len(b) {
+						q = len(b)
+					}
+					pipes[c].Feed(b[:q])
+					b = b[q:]
+				}
+			}(c)
+		}
+		wg.Wait()
+		col.Wait(func() bool {
+			for c := 0; c < k; c++ {
+				if countFrames(col.Events(chs[c])) < n {
+					return false
+				}
+			}
+			return true
+		})
+		verdict := "ok"
+		for c := 0; c < k && verdict == "ok"; c++ {
+			i := 0
+			for _, e := range col.Events(chs[c]) {
+				fe, isF := e.(*gomavlib.EventFrame)
+				if !isF {
+					if _, isOpen := e.(*gomavlib.EventChannelOpen); !isOpen {
+						verdict = fmt.Sprintf("UNEXPECTED-EVENT %T on channel %d after %d frames", e, c, i)
+						break
+					}
+					continue
+				}
+				hb, isHB := fe.Message().(*minimal.MessageHeartbeat)
+				if !isHB || hb.CustomMode != uint32(c*100000+i+1) || fe.SystemID() != byte(c+1) {
+					verdict = fmt.Sprintf("FRAME-%d-OF-CHANNEL-%d-IS-NOT-ITS-OWN %s", i, c, hx.Frame(fe.Frame))
+					break
+				}
+				i++
+			}
+			if verdict == "ok" && i != n {
+				verdict = fmt.Sprintf("CHANNEL-%d-GOT-%d-OF-%d-FRAMES", c, i, n)
+			}
+		}
+		scn.CloseWithin(node, 10*time.Second)
+		o.Add("same message type on four channels at once", verdict, "expect", "ok", fmt.Sprintf("cross-channel sc=%d", sc))
+	}
+	// ---- a network channel with an idle time-out and an application that pauses longer than
+	// that while the peer keeps sending: nothing is lost, the channel stays open ----
+	nsl := 1
+	if tier == "thorough" {
+		nsl = 6
+	}
+	for sc := 0; sc < nsl; sc++ {
+		addr := fmt.Sprintf("127.0.0.1:%d", 26000+int(hx.Seed()%100)*10+sc%5)
+		idle := 300 * time.Millisecond
+		node, err := gomavlib.NewNode(gomavlib.NodeConf{Endpoints: []gomavlib.EndpointConf{gomavlib.EndpointTCPServer{Address: addr}},
+			Dialect: d, OutVersion: gomavlib.V2, OutSystemID: 10, HeartbeatDisable: true, IdleTimeout: idle})
+		if err != nil {
+			continue
+		}
+		col := scn.NewCollector(node, 0, false)
+		peer, err := net.Dial("tcp4", addr)
+		if err != nil {
+			node.Close()
+			continue
+		}
+		n := 60
+		stop := make(chan struct{})
+		sent := make(chan int, 1)
+		go func() {
+			i := 0
+			for ; i < n; i++ {
+				m := &minimal.MessageHeartbeat{CustomMode: uint32(i + 1), MavlinkVersion: 3}
+				mrw := drw.GetMessage(0)
+				f := &frame.V2Frame{SequenceNumber: byte(i), SystemID: 9, ComponentID: 1, Message: mrw.Write(m, true)}
+				f.Checksum = f.GenerateChecksum(mrw.CRCExtra())
+				peer.Write(frameBytes(drw, f)) //nolint:errcheck
+				select {
+				case <-stop:
+					sent <- i + 1
+					return
+				case <-time.After(25 * time.Millisecond):
+				}
+			}
+			sent <- i
+		}()
+		// the application stops receiving for longer than the idle time-out, twice
+		time.Sleep(200 * time.Millisecond)
+		col.Pause()
+		time.Sleep(idle + 250*time.Millisecond)
+		col.Resume()
+		time.Sleep(150 * time.Millisecond)
+		col.Pause()
+		time.Sleep(idle + 100*time.Millisecond)
+		col.Resume()
+		ns := <-sent
+		close(stop)
+		verdict := "ok"
+		if !col.Wait(func() bool {
+			for _, ch := range col.Channels() {
+				if countFrames(col.Events(ch)) >= ns {
+					return true
+				}
+			}
+			return false
+		}) {
+			got := 0
+			closed := ""
+			for _, ch := range col.Channels() {
+				got = countFrames(col.Events(ch))
+				for _, e := range col.Events(ch) {
+					if ce, ok := e.(*gomavlib.EventChannelClose); ok {
+						closed = fmt.Sprintf(" channel closed: %v", ce.Error)
+					}
+				}
+			}
+			verdict = fmt.Sprintf("FRAMES-LOST %d of %d delivered%s", got, ns, closed)
+		}
+		peer.Close()
+		scn.CloseWithin(node, 10*time.Second)
+		o.Add("tcp channel, application pauses longer than the idle time-out", verdict, "expect", "ok", fmt.Sprintf("slow-consumer sc=%d", sc))
 	}
 	runtime.GOMAXPROCS(runtime.NumCPU())
 }
